@@ -405,6 +405,9 @@ def r6_sorted_return(ctx: Context, v: CalibrateView) -> None:
         ok = isinstance(val, ast.Tuple) and len(val.elts) == 2
         if ok:
             a, b = val.elts
+            # np.take(v, idx) without an axis is v[idx] for the one-dimensional loss vector (it would flatten the two-dimensional parameters)
+            if isinstance(b, ast.Call) and (dotted(b.func) or "") in ("np.take", "numpy.take") and len(b.args) == 2 and not b.keywords and src(b.args[0]) == "self.losses_samp":
+                b = ast.Subscript(value=b.args[0], slice=b.args[1], ctx=ast.Load())
             ok = isinstance(a, ast.Subscript) and isinstance(b, ast.Subscript) and src(a.value) == "self.params_samp" and src(b.value) == "self.losses_samp" \
                 and str(n.rat(a.slice)) == str(n.rat(b.slice)) and str(n.rat(a.slice)) in (idx, alt)
         ctx.check(ok, "R6.sorted-return", "Calibrator.calibrate:return", "returns (params[idx], losses[idx]) with the same idx = argsort(losses), ascending",
